@@ -13,7 +13,11 @@
      kind = "host"   the paired system call(s) of HostFs: ok / errs / successor state / returned values
      kind = "free"   outside the modelled part of the environment: only "same as the host" is required
      kind = "noslot" the request names a reference the client does not hold (driver artefact, ignored)
-   X = [root, no_open, no_opendir, xattr] describes the export and the configuration. *)
+   X = [root, no_open, no_opendir, xattr] describes the export and the configuration.
+   Callers: uid and gid are independent (root with a foreign group, a user with group 0): a created object
+   belongs to q.uid : q.gid.  The kill flags of killpriv_v2 (q.kill) are only put on requests whose host
+   equivalent does not depend on them (requests that fail, files without set-id bits): they never change
+   what a LATER request does -- the serving thread's capabilities are part of the Creds obligation. *)
 EXTENDS HostFs
 
 HKey(j) == 1000 + j
